@@ -395,7 +395,7 @@ theorem filter_spec (ignore : Bool) (op : Op) (hk : op.kind = .filter) (hnt : No
 
 /-- what the refinement assumes of one operator -/
 structure OpOK (op : Op) : Prop where
-  /-- no `fn_batch_size` / `batch_size` (re-batching is the subject of C19) -/
+  /-- no `fn_batch_size` / `batch_size` (operators with batch sizes: `BatchedOK`, Lemmas/PipeBatch.lean) -/
   unbatched : op.fnBatch = 0 ∧ op.batch = 0
   selfAlone : SelfAlone op
   /-- a predicate returns one truth value, never a tuple -/
